@@ -77,6 +77,8 @@ class World:
         self.pkg = pkg or {}
         self.fc_mode = fc_mode
         self.hints_sync = hints_sync
+        self.shared_lookups = False  # True: all evaluations of one requirement key await ONE shared future (a cached backend look-up)
+        self.shared: Dict[str, Any] = {}
         self.log: List[tuple] = []
 
     def data(self) -> EvaluatableData:
@@ -133,7 +135,13 @@ def _make_rc_method(key: str, is_sync: bool):
 
         async def evaluate(self, evaluatable_data, context):  # pylint:disable=unused-argument
             world: World = evaluatable_data.body
-            await sched.point(("rc", key, world.id))
+            if world.shared_lookups:
+                fut = world.shared.get(key)
+                if fut is None:
+                    fut = world.shared[key] = sched.ACTIVE.park_shared(("rc-shared", key, world.id))
+                await fut
+            else:
+                await sched.point(("rc", key, world.id))
             seen = current_world()
             world.log.append(("rc", key, world.id, seen.id if seen else None))
             return REAL[world.rc[key]]
